@@ -17,7 +17,7 @@ from multiprocessing import Pool
 
 import numpy as np
 
-from .. import common, scenes, sysworld, tablecheck
+from .. import common, pipecheck, scenes, sysworld, tablecheck
 
 
 def split_obs(o):
@@ -68,7 +68,13 @@ def _work(args):
                     findings.append(('C11.snapshot-edit-does-not-leak', 'another snapshot changed'))
         prev = (out, roots, raw)
     # caller's DataFrame and per-call dict under a full run
-    rows, prms, _ = tablecheck.gen_scene(seed, k, rng.choice(['synth', 'exact', 'degenerate']))
+    rows, prms, _ = pipecheck.gen_scene(seed, k, rng.choice(['synth', 'exact', 'degenerate', 'drift', 'drift', 'split']))
+    prms = copy.deepcopy(prms)
+    if rng.random() < 0.5:
+        # list-valued leaves given per call, in any order (the code only takes their min / max or indexes them)
+        prms.setdefault('GROUPING_PRMS', {}).setdefault('height_scale_range', rng.choice([[500, 100], [400, 150]]))
+    if rng.random() < 0.3:
+        prms.setdefault('EXCLUDE_FOR_BASE_HEIGHT_CALC', ['zz', rows[0][0]])
     df = scenes.make_frame(rows)
     if rng.random() < 0.3:
         df.index = [rng.randrange(50) for _ in range(len(df))]
